@@ -6,11 +6,12 @@ from .. import lbgen, lbshadow
 from . import c02
 
 ID = "C04"
-MODULES = ["Helios.Props.C04"]
+MODULES = ["Helios.Props.C04", "Helios.Props.C04M"]
 THEOREMS = ["Helios.LB.passive_below_threshold", "Helios.LB.passive_at_threshold", "Helios.LB.finish_no_eject",
             "Helios.LB.probe_fail_ejects", "Helios.LB.probe_ok_never_ejects", "Helios.LB.no_traffic_in_window",
             "Helios.LB.recovers_after_window", "Helios.LB.lazy_expiry", "Helios.LB.eject_mirror",
-            "Helios.LB.isHealthyAt_mirror", "Helios.LB.probeEnd_ok_keeps_window"]
+            "Helios.LB.isHealthyAt_mirror", "Helios.LB.probeEnd_ok_keeps_window",
+            "Helios.LB.mi_step", "Helios.LB.mirror_ok_run"]
 SEC = lbgen.SEC
 
 
